@@ -17,7 +17,6 @@ package jobs
 import (
 	"context"
 	"errors"
-	"math"
 	"reflect"
 	"sync"
 	"time"
@@ -230,11 +229,14 @@ func (pipeline *IncrementalPipeline) sync(job *job, ctx context.Context) (int, e
 						transformTS := time.Now()
 
 						parallelisms := pipeline.transform.getParallelism()
-						if len(entities) < parallelisms {
+						if len(entities) < parallelisms || parallelisms < 1 {
 							parallelisms = 1
 						}
 
-						psize := int(math.Round(float64(len(entities)) / float64(parallelisms)))
+						// split into parallelisms chunks whose sizes differ by at most one,
+						// so that every entity is handed to exactly one worker
+						psize := len(entities) / parallelisms
+						rest := len(entities) % parallelisms
 						workResults := make([]presult, parallelisms)
 
 						local := func(workId int, lentities []*server.Entity, wg *sync.WaitGroup) {
@@ -262,16 +264,15 @@ func (pipeline *IncrementalPipeline) sync(job *job, ctx context.Context) (int, e
 						for i := 0; i < parallelisms; i++ {
 							from := index
 							to := index + psize
-
-							if to >= len(entities) {
-								to = index + (len(entities) - index)
+							if i < rest {
+								to++
 							}
 
 							chunk := make([]*server.Entity, to-from)
 							copy(chunk, entities[from:to])
 							go local(wid, chunk, &wg)
 							wid++
-							index += psize
+							index = to
 						}
 
 						wg.Wait()
